@@ -1,10 +1,11 @@
 #!/bin/sh
-# usage: tools/seeded_import.sh CNN   copies /tmp/seeded/CNN/k/{patch.diff,demo.*,meta.json} to seeded/CNN/k and confirms them
+# usage: tools/seeded_import.sh CNN [srcroot [prefix]]
+# copies <srcroot>/CNN/k/{patch.diff,demo.*,meta.json} (default /tmp/seeded) to seeded/CNN/<prefix>k and confirms them
 cd "$(dirname "$0")/.." || exit 2
-id="$1"
-for k in /tmp/seeded/$id/[0-9]*; do
+id="$1"; src="${2:-/tmp/seeded}"; pre="${3:-}"
+for k in "$src/$id"/[0-9]*; do
     [ -f "$k/patch.diff" ] || continue
-    n=$(basename "$k"); mkdir -p "seeded/$id/$n"
+    n="$pre$(basename "$k")"; mkdir -p "seeded/$id/$n"
     for f in patch.diff demo.py demo.sh meta.json; do [ -f "$k/$f" ] && cp "$k/$f" "seeded/$id/$n/"; done
     tools/seeded_confirm.sh "seeded/$id/$n"
 done
